@@ -158,6 +158,14 @@ func (c *aeCtx) valueDomain(v ssa.Value, depth int) *fieldDomain {
 		if x.Op != token.MUL {
 			return nil
 		}
+		if arr, _ := constArrayOf(x); arr != nil {
+			// element of a slice literal of constants (for _, op := range operators)
+			m := map[string]bool{}
+			for _, s := range arr {
+				m[s] = true
+			}
+			return &fieldDomain{closed: true, allowed: keysOf(m)}
+		}
 		ia, ok := x.X.(*ssa.IndexAddr)
 		if !ok {
 			return nil
@@ -213,6 +221,32 @@ func (c *aeCtx) valueDomain(v ssa.Value, depth int) *fieldDomain {
 			return &fieldDomain{closed: true, allowed: keysOf(m)}
 		}
 		if c.p.IsRepoFn(f) && len(f.Params) == 1 && isStringType(f.Params[0].Type()) && f.Signature.Results().Len() == 1 && isStringType(f.Signature.Results().At(0).Type()) {
+			if d := c.valueDomain(x.Call.Args[0], depth+1); d != nil && d.closed {
+				// image of a finite set under a repo function, by constant evaluation
+				m := map[string]bool{}
+				ok := true
+				for _, s := range d.allowed {
+					func() {
+						defer func() {
+							if e := recover(); e != nil {
+								ok = false
+							}
+						}()
+						sub := newAECtx(c.p)
+						sub.stageMode = false
+						r := &aeRun{ctx: sub, w: newWorld(1)}
+						res := r.call(f, []any{avConst{constant.MakeString(s)}})
+						if cv, isC := res.(avConst); isC && cv.v.Kind() == constant.String {
+							m[constant.StringVal(cv.v)] = true
+						} else {
+							ok = false
+						}
+					}()
+				}
+				if ok {
+					return &fieldDomain{closed: true, allowed: keysOf(m)}
+				}
+			}
 			ex := c.producerExclusions(f)
 			return &fieldDomain{excluded: ex}
 		}
